@@ -196,6 +196,17 @@ Proof.
   subst accepted. rewrite Htv, Hact. unfold r2a_ref_step. cbn [rb_tvalid rb_sent]. intros -> ->.
   cbn [andb]. rewrite orb_true_r. split; [reflexivity|]. intros ->. reflexivity.
 Qed.
+(* reset clears VALID, sent and active whatever else happens in the cycle; done clears sent and active *)
+Lemma r2a_reset_clears : b_reset i = true -> r2a_tvalid s' = 0 /\ r2a_sent s' = 0 /\ r2a_active s' = 0.
+Proof.
+  destruct r2a_cycle_next as (Hv & Hs & _ & Ha). rewrite Hv, Hs, Ha.
+  unfold r2a_ref_step, clear_of, next_active. cbn [rb_tvalid rb_sent rb_active]. intros ->. cbn [orb]. auto.
+Qed.
+Lemma r2a_done_clears : b_done i = true -> r2a_sent s' = 0 /\ r2a_active s' = 0.
+Proof.
+  destruct r2a_cycle_next as (_ & Hs & _ & Ha). rewrite Hs, Ha.
+  unfold r2a_ref_step, clear_of, next_active. cbn [rb_sent rb_active]. intros ->. rewrite !orb_true_r. cbn [orb]. auto.
+Qed.
 End Cycle.
 
 (* ------------------------------------------------------------------ under the property's assumption on done *)
